@@ -35,3 +35,14 @@ func VerifH19dLinkHeaderAnyByte() {
 	res := parseLinkHeader(h)
 	verifrt.Observe("n", len(res))
 }
+
+// VerifH19dLinkParams: a well-formed link followed by arbitrary parameter text.
+func VerifH19dLinkParams() {
+	n := verifrt.IntRange("len", 0, 4+verifrt.Tier())
+	tail := verifrt.String("params", n)
+	for i := 0; i < n; i++ {
+		verifrt.Assume(zzAlpha(tail[i], ";=\"a ,"))
+	}
+	res := parseLinkHeader("</a.css>" + tail)
+	verifrt.Observe("n", len(res))
+}
